@@ -13,6 +13,7 @@
  *   fx <efun> [a] [b]                          fresh fixture, then /c15/obj->do_efun (efun, a, b)
  *   es [file] c1,c2,...                       fresh fixture, editing session (see ed_session ())
  *   inc [basefile] [name]                      fresh fixture, basefile := `#include "name"`, load it
+ *   inca / incm [basefile] [name]              the same with `#include <name>` / `#define VHDR "name"` + `#include VHDR`
  *   inh [basefile] [name]                      fresh fixture, basefile := `inherit "name";`, load it
  *   ld [name]                                  fresh fixture, load_object (name)
  *   ldb [name]                                 (after `binaries on`) #pragma save_binary source, loaded twice
@@ -917,7 +918,8 @@ static int c15_cmd (char *line)
       return 1;
     }
   if (strncmp (line, "u", 1) && strncmp (line, "policy ", 7) && strncmp (line, "fx ", 3)
-      && strncmp (line, "inc ", 4) && strncmp (line, "inh ", 4) && strncmp (line, "ld ", 3)
+      && strncmp (line, "inc ", 4) && strncmp (line, "inca ", 5) && strncmp (line, "incm ", 5)
+      && strncmp (line, "inh ", 4) && strncmp (line, "ld ", 3)
       && strncmp (line, "es ", 3))
     return 0;
   snprintf (copy, sizeof copy, "%s", line);
@@ -1035,7 +1037,7 @@ static int c15_cmd (char *line)
       fs_armed = 0;
       return 1;
     }
-  if ((!strcmp (tok[0], "inc") || !strcmp (tok[0], "inh")) && n == 3)
+  if ((!strcmp (tok[0], "inc") || !strcmp (tok[0], "inca") || !strcmp (tok[0], "incm") || !strcmp (tok[0], "inh")) && n == 3)
     {
       char text[4096];
       char *base = unbr (tok[1]), *name = unbr (tok[2]);
@@ -1043,7 +1045,11 @@ static int c15_cmd (char *line)
       int save = fs_armed;
       fs_armed = 0;
       mk_dirs_for (base);
-      if (tok[0][2] == 'c')
+      if (!strcmp (tok[0], "inca"))	/* #include <name> */
+	snprintf (text, sizeof text, "#include <%s>\nvoid g () { }\n", name);
+      else if (!strcmp (tok[0], "incm"))	/* #include MACRO */
+	snprintf (text, sizeof text, "#define VHDR \"%s\"\n#include VHDR\nvoid g () { }\n", name);
+      else if (tok[0][2] == 'c')
 	snprintf (text, sizeof text, "#include \"%s\"\nvoid g () { }\n", name);
       else
 	snprintf (text, sizeof text, "inherit \"%s\";\nvoid g () { }\n", name);
